@@ -7,7 +7,7 @@ V=$(pwd)
 pass=0; fail=0
 for d in seeded/*/; do
   n=$(basename $d)
-  prop=$(python3 -c "import json;print(json.load(open('$d/meta.json'))['property'])")
+  prop=$(python3 -c "import json;m=json.load(open('$d/meta.json'));print(m.get('evaluate_with',m['property']))")
   git -C $R apply $V/$d/patch.diff || { echo "$n APPLY-FAILED"; continue; }
   VERIF_REPO=$R python3 check.py $prop --tier quick > /tmp/regress_$n.out 2>&1; rc=$?
   git -C $R checkout -- .
